@@ -51,14 +51,15 @@ func verifSchedSetup() (*verifFS, *Server, *connState, *connState, verifFidSet, 
 		return set
 	}
 	if verifTinySetup {
-		// connection 1 holds the two directories, connection 2 one fid on /d/f
-		set := verifFidSet{dir: 101, file: 102, openFile: 103, openDir: 104, other: 105, otherFile: 106, newBase: 120}
+		// connection 1 works on the root directory (its attach fid) and holds /e;
+		// connection 2 holds one fid, on /f, and has given up its attach fid: the
+		// parent chain of that fid is as short as it gets
+		set := verifFidSet{dir: 1, file: 102, openFile: 103, openDir: 104, other: 105, otherFile: 106, newBase: 120}
 		fs.walkMode = ModeDirectory
-		verifAssume(verifErrnoOf(cs1.handle(&twalk{fid: 1, newFID: set.dir, Names: []string{"d"}})) == 0)
 		verifAssume(verifErrnoOf(cs1.handle(&twalk{fid: 1, newFID: set.other, Names: []string{"e"}})) == 0)
-		verifAssume(verifErrnoOf(cs2.handle(&twalk{fid: 1, newFID: set.file, Names: []string{"d"}})) == 0)
 		fs.walkMode = ModeRegular
-		verifAssume(verifErrnoOf(cs2.handle(&twalk{fid: set.file, newFID: set.file, Names: []string{"f"}})) == 0)
+		verifAssume(verifErrnoOf(cs2.handle(&twalk{fid: 1, newFID: set.file, Names: []string{"f"}})) == 0)
+		verifAssume(verifErrnoOf(cs2.handle(&tclunk{fid: 1})) == 0)
 		fs.log = nil
 		return fs, s, cs1, cs2, set, set
 	}
@@ -545,6 +546,10 @@ func VerifH_C16_Pairs() {
 		verifReach("disjoint-pair")
 	}
 	fs.sched = true
+	if opA == 1 || opB == 1 {
+		// the two-component walk must get past its first component: walked nodes are directories
+		fs.walkMode = ModeDirectory
+	}
 	ta, tb := verifC16Op(opA, cs1, a), verifC16Op(opB, csB, fb)
 	verifThread("A", ta)
 	verifThread("B", tb)
